@@ -71,27 +71,29 @@ SPEC = dict(
         quick=[
             _cm("cm-le2leaves-8tok-k3", "--maxleaves", 2, "--k", 3, "--alpha", 8),
             _cm("cm-le2leaves-elem-k4", "--specials", 0, "--maxleaves", 2, "--k", 4, "--alpha", 4),
-            _cm("cm-3leaves-abc-k4", "--specials", 0, "--minleaves", 3, "--maxleaves", 3, "--wrap", 0, "--k", 4, "--alpha", 3, "--cfgmask", "0x21"),
+            _cm("cm-3leaves-abc-k4", "--specials", 0, "--minleaves", 3, "--maxleaves", 3, "--wrap", 0, "--k", 4, "--alpha", 3, "--cfgmask", "0x21",
+                "--cfgrotate", 1),
             dict(name="cmx-k2", driver=D, args=["--space", "cmx", "--k", 2]),
-            dict(name="attr-quick-defaults", driver=D, args=["--space", "attr", "--defaults", "quick"]),
-            dict(name="idref-3elems", driver=D, args=["--space", "idref", "--elems", 3, "--placemask", "0x3"]),
+            dict(name="attr-quick-defaults", driver=D, args=["--space", "attr", "--defaults", "quick", "--placerotate", 1]),
+            dict(name="idref-3elems-small", driver=D, args=["--space", "idref", "--elems", 3, "--small", 1, "--placerotate", 1]),
             dict(name="vc", driver=D, args=["--space", "vc"]),
             dict(name="place-le2leaves-k2", driver=D, args=["--space", "place", "--maxleaves", 2, "--k", 2, "--cfgmask", "0x81"]),
         ],
         thorough=[
-            _cm("cm-le2leaves-allnames-8tok-k3", "--maxleaves", 2, "--k", 3, "--alpha", 8, "--naming", "all", "--deadline", 420),
-            _cm("cm-le2leaves-8tok-k4", "--maxleaves", 2, "--k", 4, "--alpha", 8, "--deadline", 420),
-            _cm("cm-le2leaves-elem-k5", "--specials", 0, "--maxleaves", 2, "--k", 5, "--alpha", 4, "--deadline", 240),
+            # deadlines are safety caps (sum ~ 23 min); on an idle box every run completes well inside its cap
+            _cm("cm-le2leaves-allnames-8tok-k3", "--maxleaves", 2, "--k", 3, "--alpha", 8, "--naming", "all", "--deadline", 180),
+            _cm("cm-le2leaves-8tok-k4", "--maxleaves", 2, "--k", 4, "--alpha", 8, "--deadline", 240),
+            _cm("cm-le2leaves-elem-k5", "--specials", 0, "--maxleaves", 2, "--k", 5, "--alpha", 4, "--deadline", 100),
             _cm("cm-3leaves-elem-k4", "--specials", 0, "--minleaves", 3, "--maxleaves", 3, "--wrap", 0, "--k", 4, "--alpha", 4, "--cfgmask", "0x99",
-                "--deadline", 480),
+                "--deadline", 260),
             _cm("cm-4leaves-abc-k4", "--specials", 0, "--minleaves", 4, "--maxleaves", 4, "--wrap", 0, "--maxsufs", 2, "--k", 4, "--alpha", 3,
-                "--cfgmask", "0x21", "--deadline", 420),
-            dict(name="cmx-k3", driver=D, args=["--space", "cmx", "--k", 3, "--deadline", 240]),
-            dict(name="attr-all-defaults", driver=D, args=["--space", "attr", "--defaults", "all", "--deadline", 300]),
-            dict(name="idref-3elems-big", driver=D, args=["--space", "idref", "--elems", 3, "--big", 1, "--placemask", "0x3", "--onoff", 0, "--deadline", 300]),
-            dict(name="idref-3elems", driver=D, args=["--space", "idref", "--elems", 3, "--deadline", 200]),
+                "--cfgmask", "0x21", "--cfgrotate", 1, "--deadline", 200),
+            dict(name="cmx-k3", driver=D, args=["--space", "cmx", "--k", 3, "--deadline", 70]),
+            dict(name="attr-all-defaults", driver=D, args=["--space", "attr", "--defaults", "all", "--deadline", 120]),
+            dict(name="idref-3elems-big", driver=D, args=["--space", "idref", "--elems", 3, "--big", 1, "--placerotate", 1, "--onoff", 0, "--deadline", 120]),
+            dict(name="idref-3elems", driver=D, args=["--space", "idref", "--elems", 3, "--deadline", 60]),
             dict(name="vc", driver=D, args=["--space", "vc"]),
-            dict(name="place-le2leaves-k3", driver=D, args=["--space", "place", "--maxleaves", 2, "--k", 3, "--cfgmask", "0x81", "--deadline", 300]),
+            dict(name="place-le2leaves-k3", driver=D, args=["--space", "place", "--maxleaves", 2, "--k", 3, "--cfgmask", "0x81", "--deadline", 60]),
         ],
     ),
     manifest=dict(
